@@ -223,6 +223,23 @@ func c06(r *Run) {
 			func(x ssa.Instruction) bool { return isCall(x, ro.onRequestM) }, nil, nil, "onRequest() on every path from the non-empty edge")
 	}
 
+	// every invocation of the request handler in the task is behind "a handler is installed": a connection may have an
+	// OnConnect only, and its task still sees input
+	for _, site := range findIns(ro.task, func(i ssa.Instruction) bool { return userCallbackKind(i) == "OnRequest" }) {
+		hasHandler := func(v ssa.Value) (bool, bool) {
+			b, ok := v.(*ssa.BinOp)
+			if !ok || (b.Op != token.EQL && b.Op != token.NEQ) {
+				return false, false
+			}
+			for _, side := range [][2]ssa.Value{{b.X, b.Y}, {b.Y, b.X}} {
+				if namedTypeName(side[0].Type()) == "OnRequest" && isNilConst(side[1]) {
+					return b.Op == token.NEQ, true
+				}
+			}
+			return false, false
+		}
+		r.guarded("C06.R1:handler-call-nil-guarded:"+siteKey(w, site), "the task invokes the request handler only after seeing that one is installed (a connection with only an OnConnect still gets input)", ro.task, site, hasHandler, nil, "guarded by onRequest != nil")
+	}
 	// ---- R4 buffered input is offered before the close callbacks ------------------------------
 	{
 		statusCall := isCallOf(ro.status, ro.kClosing)
